@@ -24,6 +24,7 @@ void sym_file_set_len(FILE *f, int64_t n);
 int64_t sym_file_len(FILE *f);
 void sym_file_poke(FILE *f, int64_t pos, int32_t byte); /* overwrite one byte of the file image */
 int32_t sym_file_peek(FILE *f, int64_t pos);
+FILE *sym_file_unseekable(FILE *f); /* the rest of f as a stream on which ftell/fseek fail (a pipe) */
 
 /* name helper: "x" + index -> static buffer per call site is the caller's job */
 static inline const char *
